@@ -96,7 +96,10 @@ Inductive cutoff :=
 
 (* operands inside a bind template: an outer node captured by the closure, or the i-th node
    created by the template [depth] levels up (0 = the template being instantiated) *)
-Inductive operand := OOuter (n : nid) | OLocal (depth : nat) (i : nat).
+(* [OLate h]: the closure looks the node up in the program's handle table when it runs (a shared cell
+   filled in later: how user code ties a bind to a node built after it) *)
+Inductive operand := OOuter (n : nid) | OLocal (depth : nat) (i : nat) | OLate (h : nat)
+  | OForeign.   (* a node of another IncrState (only meaningful as the result of a bind closure) *)
 
 Inductive tinstr :=
   | TConst (v : Z)
